@@ -490,3 +490,36 @@ for _st in range(3):
              "thorough: applied 2..3 times to its own output" % ("rest", "google", "numpydoc")[_st])(doctrans_work)
 ob("C11", "work.doctrans.nest.again", {"depth": R(1, 7), "width": R(0, 1), "style": R(0, 2), "type_annotations": BOOL, "times": R(2, 3)}, enum=True, T=3000, tpath=200, tier="thorough",
    funcs=["cdd.compound.doctrans.doctrans"], bound="as work.doctrans.nest, doctrans applied 2..3 times to its own output")(doctrans_work)
+
+
+# time.*: code that runs inside C (regular expressions) cannot be counted by the fuel / activation counters: wall-clock budget in a fresh interpreter -----------------
+def blank_runs(entry, word, k, nl):
+    """a description in which a default-ish word is followed by a run of `k` blanks (or a line break and a hanging indent of k blanks) and then ordinary prose"""
+    w = ("defaults", "default value", "(defaults", "Defaults", "default")[word]
+    gap = ("\n" + " " * k) if nl else (" " * k)
+    doc = "step size; when None the optimiser " + w + gap + "are used instead"
+    if entry == 0:
+        from cdd.shared.defaults_utils import extract_default
+
+        extract_default(doc, emit_default_doc=False)
+    elif entry == 1:
+        from cdd.shared.docstring_parsers import parse_docstring
+
+        parse_docstring("Header.\n\n:param learning_rate: " + doc + "\n:type learning_rate: ```float```\n")
+    else:
+        import cdd.docstring.emit
+        from collections import OrderedDict
+
+        cdd.docstring.emit.docstring({"name": "f", "doc": "Header.", "type": "static", "params": OrderedDict((("lr", {"typ": "float", "doc": doc}),)), "returns": None}, emit_default_doc=False)
+    return ""
+
+
+TIME_BUDGET = 20
+for _entry, _en in enumerate(("extract_default", "parse_docstring", "emit_docstring")):
+    ob("C11", "time.blank_runs.%s" % _en, {"entry": R(_entry, _entry), "word": R(0, 4), "k": R(0, 48), "nl": BOOL}, enum=True, isolated=TIME_BUDGET, T=3000,
+       tier="quick" if _entry == 1 else "thorough",
+       funcs=["cdd.shared.defaults_utils.extract_default", "cdd.shared.docstring_parsers.parse_docstring", "cdd.docstring.emit.docstring"],
+       assumes=["timing oracle: each path runs the call in a fresh interpreter under a wall-clock budget of %d s (interpreter start-up included; the unchanged tree needs < 1 s); this is the only "
+                "way to see work done inside C code such as the `re` module" % TIME_BUDGET],
+       bound="%s on a description in which one of 'defaults' / 'default value' / '(defaults' / 'Defaults' / 'default' is followed by a run of 0..48 blanks (or a line break and a hanging indent of "
+             "0..48 blanks) and then prose (solver-enumerated): the call returns within %d s" % (_en, TIME_BUDGET))(blank_runs)
